@@ -248,7 +248,9 @@ static std::vector< rule_entry > make_rules()
    add( RULE( "uri::absolute_URI", uri::absolute_URI, lf ), uri_seeds );
    add( RULE( "uri::IPv4address", uri::IPv4address, lf ), { "1.2.3.4", "255.255.255.255", "10.0.0.199", "0.0.0.0", "1.2.3.25" } );
    add( RULE( "uri::IPv6address", uri::IPv6address, lf ), { "1:2:3:4:5:6:7:8", "::1.2.3.4", "1::", "::", "fe80::1:2", "1:2:3:4:5:6:1.2.3.4" } );
-   const std::vector< std::string > http_seeds = { "GET /a HTTP/1.1\r\n", "HTTP/1.1 200 OK\r\n", "1a\r\n0123456789abcdefghijklmnop\r\n0\r\n\r\n", "3;x=\"q\"\r\nabc\r\n00\r\nA: b\r\n\r\n", "Host: a.b\r\n" };
+   const std::vector< std::string > http_seeds = { "GET /a HTTP/1.1\r\n", "HTTP/1.1 200 OK\r\n", "1a\r\n0123456789abcdefghijklmnop\r\n0\r\n\r\n", "3;x=\"q\"\r\nabc\r\n00\r\nA: b\r\n\r\n", "Host: a.b\r\n",
+                                                    // chunk sizes near 2^64 / 2^63: the amount asked of the input is huge
+                                                    "FFFFFFFFFFFFFFFF\r\nabc\r\n0\r\n\r\n", "8000000000000000\r\nabc\r\n0\r\n\r\n", "fffffffffffffff0;x=y\r\nabc\r\n" };
    add( RULE( "http::request_line", http::request_line, lf ), http_seeds );
    add( RULE( "http::status_line", http::status_line, lf ), http_seeds );
    add( RULE( "http::chunked_body", http::chunked_body, lf ), http_seeds );
